@@ -177,6 +177,7 @@ def __calculate_equities_0(
     assert len(board_cards) == board_dealing_count
 
     equities = [0.0] * len(hole_cards)
+    hands_by_type = []
 
     for hand_type in hand_types:
         hands = list(
@@ -185,9 +186,16 @@ def __calculate_equities_0(
                 hole_cards,
             ),
         )
+
+        # As in a showdown, the pot is only split among the hand types for
+        # which somebody holds a hand (e.g. nobody may qualify for low).
+        if any(hand is not None for hand in hands):
+            hands_by_type.append(hands)
+
+    for hands in hands_by_type:
         max_hand = max_or_none(hands)
-        statuses = list(map(partial(eq, max_hand), hands))
-        increment = 1 / (len(hand_types) * sum(statuses))
+        statuses = [hand is not None and hand == max_hand for hand in hands]
+        increment = 1 / (len(hands_by_type) * sum(statuses))
 
         for i, status in enumerate(statuses):
             if status:
